@@ -16,6 +16,8 @@ structure DState where
   phase    : Option Phase := none       -- phase of the last command of the running test
   inTest   : Bool := false              -- between `pre` and `post`
   f0       : Nat := 0                   -- failure count when the test started
+  separate : Bool := false              -- the running test runs in a forked child
+  parent   : World := World.init true   -- separate: the parent's state while the child runs
 deriving Inhabited
 
 def phaseOf? : String → Option Phase
@@ -101,14 +103,31 @@ def modelStep (d : DState) (op : List String) (obs : List (List String)) : DStat
     ({ w := World.init (!(rest.contains "nooverloads")), global := m == "global" }, [])
   | ["test", _] =>
     if obs.contains ["notrun"] then (d, ["notrun"])
-    else ({ d with w := clearObs d.w, phase := none, inTest := false, f0 := d.w.failures }, [])
+    else ({ d with w := clearObs d.w, phase := none, inTest := false, f0 := d.w.failures, separate := false }, [])
   | ["pre"] =>
-    ({ d with w := preSteps'.foldl (rstep {}) d.w, inTest := true, phase := none }, [])
+    -- a test in a separate process: everything from here to `post` happens to the child's copy
+    ({ d with parent := d.w, w := preSteps'.foldl (rstep {}) d.w, inTest := true, phase := none }, [])
+  | ["cmd", "o", "overloads", b] =>
+    if obs.contains ["ok"] then
+      ({ d with w := if b == "on" then turnOnOverloads d.w else turnOffOverloads d.w }, ["ok"])
+    else (d, ["skipped"])
+  | ["cmd", "o", "separate"] =>
+    if obs.contains ["ok"] then ({ d with separate := true }, ["ok"]) else (d, ["skipped"])
   | "cmd" :: "o" :: rest =>
     match cmdOf? rest with
     | some (.alloc id sz) => execAndRender d execOutside (.alloc id sz) obs
     | some (.free id) => execAndRender d execOutside (.free id) obs
     | some _ => (d, ["skipped"])
+    | none => (d, ["bad-op"])
+  | "cmd" :: "c" :: rest =>
+    match cmdOf? rest with
+    | some .fail | some .ignoreLeaks | some (.expectLeaks _) => (d, ["skipped"])
+    | some c => execAndRender d execMem c obs
+    | none => (d, ["bad-op"])
+  | "cmd" :: "d" :: rest =>
+    match cmdOf? rest with
+    | some .fail | some .ignoreLeaks | some (.expectLeaks _) => (d, ["skipped"])
+    | some c => execAndRender d execMem c obs
     | none => (d, ["bad-op"])
   | "cmd" :: p :: rest =>
     match phaseOf? p, cmdOf? rest with
@@ -118,18 +137,25 @@ def modelStep (d : DState) (op : List String) (obs : List (List String)) : DStat
       if w.aborted then (d, ["skipped"]) else execAndRender d execCmd c obs
     | _, _ => (d, ["bad-op"])
   | ["post"] =>
-    let w := (phasesAfter d.phase).foldl enterPhase d.w
-    let w := postSteps'.foldl (rstep {}) w
+    let w0 := (phasesAfter d.phase).foldl enterPhase d.w
+    let w := postSteps'.foldl (rstep {}) w0
+    -- the parent of a separate process only learns whether the child's failure count grew
+    let wAfter := if d.separate then joinSeparate d.parent w else w
     let out := [s!"failures {w.failures - d.f0}"] ++
       (match w.leakFail with
        | some r => renderReport "leakfail" r (obsTrunc "leakfail" obs) "noleaks"
        | none => []) ++
-      (if w.warned then ["warn"] else []) ++ [s!"fc {w.failures}"]
-    ({ d with w := w, inTest := false }, out)
-  | ["final"] =>
-    match finalReport d.w with
-    | some r => (d, renderReport "final" r (obsTrunc "final" obs) "report")
+      (if w.warned then [s!"warn {w0.plg.expected}"] else []) ++
+      (if d.separate then [s!"parentfail {wAfter.failures - d.parent.failures}"] else []) ++
+      [s!"fc {wAfter.failures}"]
+    ({ d with w := wAfter, inTest := false }, out)
+  | ["final", n] =>
+    match finalReportN d.w (n.toNat?.getD 0) with
+    | some r => (d, renderReport "final" r (obsTrunc "final" obs) "noleaks")
     | none => (d, ["final empty total -1 trunc 0"])
+  | ["destroy"] =>
+    let w := destroyGlobalDetector d.w
+    ({ d with w := w }, [s!"destroyed overloads {if w.overloads then 1 else 0} leaks {w.det.recs.length} nextnum {w.det.seq}"])
   | _ => (d, ["bad-op"])
 
 /-! ## specification oracle: the property statement evaluated on the history -/
@@ -149,6 +175,8 @@ structure Shadow where
   ignore    : Bool := false
   expected  : Nat := 0
   testNo    : Nat := 0
+  separate  : Bool := false       -- this test runs in a forked child
+  liveAtPre : List Blk := []      -- separate: the parent's outstanding blocks
 
 def natOf (s : String) : Except String Nat :=
   match s.toNat? with | some n => pure n | none => throw s!"not a number: {s}"
@@ -157,8 +185,13 @@ def specStep (sh : Shadow) (o : Proto.Op) : Except String Shadow := do
   match o.op with
   | "mode" :: _ :: rest => return { sh with overloads := !(rest.contains "nooverloads") }
   | ["test", _] =>
-    return { sh with mine := [], inWindow := false, own := 0, ignore := false, expected := 0, testNo := sh.testNo + 1 }
-  | ["pre"] => return { sh with inWindow := true, mine := [] }
+    return { sh with mine := [], inWindow := false, own := 0, ignore := false, expected := 0, testNo := sh.testNo + 1,
+                     separate := false }
+  | ["pre"] => return { sh with inWindow := true, mine := [], liveAtPre := sh.live }
+  | ["cmd", "o", "overloads", b] =>
+    if o.obs.contains ["ok"] then return { sh with overloads := b == "on" } else return sh
+  | ["cmd", "o", "separate"] =>
+    if o.obs.contains ["ok"] then return { sh with separate := true } else return sh
   | "cmd" :: _ :: "alloc" :: l :: sz :: _ =>
     match obsNum o.obs with
     | some n =>
@@ -236,8 +269,18 @@ def specStep (sh : Shadow) (o : Proto.Op) : Except String Shadow := do
             if !entries.contains e then throw s!"test #{t}: outstanding block alloc num {e.1} size {e.2} missing from the report"
           if entries.length != n then throw s!"test #{t}: report lists {entries.length} entries for {n} outstanding blocks"
     | some _ => throw s!"test #{t}: more than one failure added outside the test's phases"
+    if sh.separate then
+      -- leaks are detected in the child; the parent reports the test failed exactly when the child
+      -- recorded a failure, and nothing the child allocated or released exists in the parent
+      let pf ← match o.obs.findSome? (fun l => match l with | ["parentfail", k] => k.toNat? | _ => none) with
+        | some k => pure k | none => throw s!"test #{t}: separate process, but no verdict of the parent observed"
+      let childFailed := sh.own > 0 || should
+      if pf != (if childFailed then 1 else 0) then
+        throw s!"test #{t} (separate process): child failed = {childFailed}, parent recorded {pf} failure(s)"
+      return { sh with inWindow := false, live := sh.liveAtPre }
     return { sh with inWindow := false }
-  | ["final"] => return sh
+  | ["final", _] => return sh
+  | ["destroy"] => return sh
   | _ => throw "bad-op"
 
 def specAll (ops : List Proto.Op) : Option String :=
